@@ -2,7 +2,7 @@
    Soundness of the reference (a reported rejection is a real member of the language),
    completeness (no member is missed) and the laws that pin the reading of syntax.md. *)
 From Coq Require Import List String Bool.
-From RashV Require Import Usage UsageProofs.
+From RashV Require Import Usage UsageProofs Tail TailProofs.
 Import ListNotations.
 
 Theorem C08_reference_sound :
@@ -27,3 +27,17 @@ Proof. exact zero_or_more_two_ways. Qed.
 Theorem C08_usage_lines_are_alternatives :
   forall ls w b, Matches (usage_lines ls) w b <-> exists l, In l ls /\ Matches (desugar l) w b.
 Proof. exact usage_lines_is_alt. Qed.
+
+(* the last stage of the code's parser (Tail.v mirrors it; the hooks feed it what the code computed):
+   "no match" is reported only when NO expanded usage fits the arguments ... *)
+Theorem C08_tail_rejects_only_when_no_usage_fits : forall t argv usages,
+  tail t argv usages = TNoMatch -> forall ds l, In ds (tail_defs usages) -> ~ fits t argv ds l.
+Proof. exact tail_rejects_only_when_no_usage_fits. Qed.
+
+(* ... and when some expanded usage fits (usages well formed, nothing panics) the arguments are accepted *)
+Theorem C08_tail_accepts_when_some_usage_fits : forall t argv usages ds l,
+  kinds_valid (map words_of_usage usages) = true ->
+  In ds (tail_defs usages) -> fits t argv ds l ->
+  (forall d, In d (tail_defs usages) -> List.length argv = List.length d -> bind_list t argv d d <> None) ->
+  tail t argv usages = THelp \/ exists v, tail t argv usages = TVars v.
+Proof. exact tail_accepts_when_some_usage_fits. Qed.
